@@ -28,7 +28,7 @@ func newCharTupleFromTuple(t Tuple) (StringCharTuple, bool) {
 	m := NewTupleMatcher(
 		map[string]Matcher{
 			"@":            MatchInt(func(i int) { at = i }),
-			StringCharAttr: MatchInt(func(i int) { char = rune(i) }),
+			StringCharAttr: MatchIntIn(0, 0x10FFFF, func(i int) { char = rune(i) }),
 		},
 		Lit(EmptyTuple),
 	)
@@ -182,7 +182,7 @@ func (t StringCharTuple) Map(f func(Value) (Value, error)) (Tuple, error) { //no
 	if at, ok := at.(Number); ok {
 		if at, is := at.Int(); is {
 			if char, ok := char.(Number); ok {
-				if char, is := char.Int(); is {
+				if char, is := char.Int(); is && 0 <= char && char <= 0x10FFFF {
 					return NewStringCharTuple(at, rune(char)), nil
 				}
 			}
